@@ -1,3 +1,302 @@
-//! C06 bounded native checks (not written yet)
-use super::Report;
-pub fn run() -> Option<Report> { None }
+//! C06 bounded: line/polyline intersection search against the exhaustive per-edge computation.
+//! Polylines: 5..=40 edges on small integer grids (zig-zags, combs, U shapes, staircases, closed rectangles /
+//! diamonds / octagons / stars, rectangular spirals); many vertices are the x- or y-extreme of both adjacent edges.
+//! Lines (rays, negative parameters included): axis-parallel lines through every vertex coordinate, through the
+//! bounding-box bounds and through half-integer offsets, oblique lines with dyadic slopes through vertices and
+//! through edge interiors; every line with its origin before / inside / behind the curve and in both senses.
+//! The oracle is written independently of the code under check (own Cramer formula, own sort / merge).
+use super::{close, Report};
+use crate::common::Intersection;
+use crate::geom2::polyline2::{farthest_point_direction_distance, max_intersection, polyline_intersections, ray_intersect_with_edge, spanning_ray};
+use crate::geom2::{Curve2, Point2, Ray2, SurfacePoint2, Vector2};
+use parry2d_f64::shape::Polyline;
+
+const DEDUP: f64 = 1e-8;
+
+fn p(x: f64, y: f64) -> Point2 { Point2::new(x, y) }
+
+// ---------------------------------------------------------------- oracle
+/// line a0 + t0*ad against the edge b0 + t1*bd, t1 in [0, 1]; directions parallel within |det| < 1e-12 give nothing
+fn edge_hit(o: &Point2, d: &Vector2, v0: &Point2, v1: &Point2) -> Option<f64> {
+    let (ex, ey) = (v1.x - v0.x, v1.y - v0.y);
+    let det = ex * d.y - ey * d.x;
+    if det.abs() < 1e-12 { return None; }
+    let (dx, dy) = (v0.x - o.x, v0.y - o.y);
+    let t0 = (dy * ex - dx * ey) / det;
+    let t1 = (dy * d.x - dx * d.y) / det;
+    if t1 >= 0.0 && t1 <= 1.0 { Some(t0) } else { None }
+}
+/// all per-edge hits (t, edge), ascending in t
+fn brute(v: &[Point2], o: &Point2, d: &Vector2) -> Vec<(f64, usize)> {
+    let mut out = vec![];
+    for i in 0..v.len() - 1 { if let Some(t) = edge_hit(o, d, &v[i], &v[i + 1]) { out.push((t, i)); } }
+    out.sort_by(|a, b| a.0.partial_cmp(&b.0).unwrap());
+    out
+}
+/// the distinct crossing parameters: clusters of per-edge hits closer than 1e-8; None when two clusters are closer than
+/// 1e-6 (the merge would depend on rounding: such a line is not part of the input space)
+fn distinct(hits: &[(f64, usize)]) -> Option<Vec<f64>> {
+    let mut ts: Vec<f64> = vec![];
+    for (t, _) in hits.iter() {
+        match ts.last() {
+            Some(l) if (t - l).abs() < DEDUP => {}
+            Some(l) if (t - l).abs() < 1e-6 => return None,
+            _ => ts.push(*t),
+        }
+    }
+    Some(ts)
+}
+fn on_edge(q: &Point2, a: &Point2, b: &Point2) -> bool {
+    // distance of q to the segment a-b is (nearly) zero
+    let (ex, ey) = (b.x - a.x, b.y - a.y);
+    let l2 = ex * ex + ey * ey;
+    let mut s = ((q.x - a.x) * ex + (q.y - a.y) * ey) / l2;
+    if s < 0.0 { s = 0.0 } else if s > 1.0 { s = 1.0 }
+    let (cx, cy) = (a.x + s * ex - q.x, a.y + s * ey - q.y);
+    (cx * cx + cy * cy).sqrt() <= 1e-7
+}
+fn at(o: &Point2, d: &Vector2, t: f64) -> Point2 { p(o.x + d.x * t, o.y + d.y * t) }
+
+// ---------------------------------------------------------------- polylines
+fn zigzag(n_edges: usize, h: f64, dx: f64) -> Vec<Point2> { (0..=n_edges).map(|i| p(i as f64 * dx, if i % 2 == 0 { 0.0 } else { h })).collect() }
+fn zigzag_vertical(n_edges: usize, w: f64) -> Vec<Point2> { (0..=n_edges).map(|i| p(if i % 2 == 0 { 0.0 } else { w }, i as f64)).collect() }
+fn comb(teeth: usize) -> Vec<Point2> {
+    // square wave: up, right, down, right ...
+    let mut v = vec![p(0.0, 0.0)];
+    for k in 0..teeth {
+        let x = 2.0 * k as f64;
+        v.push(p(x, 3.0)); v.push(p(x + 1.0, 3.0)); v.push(p(x + 1.0, 0.0)); v.push(p(x + 2.0, 0.0));
+    }
+    v
+}
+fn staircase(steps: usize) -> Vec<Point2> {
+    let mut v = vec![p(0.0, 0.0)];
+    for k in 0..steps { v.push(p(k as f64 + 1.0, k as f64)); v.push(p(k as f64 + 1.0, k as f64 + 1.0)); }
+    v
+}
+fn u_shape(side: usize) -> Vec<Point2> {
+    let s = side as f64;
+    let mut v = vec![];
+    for k in 0..=side { v.push(p(0.0, s - k as f64)); }
+    for k in 1..=side { v.push(p(k as f64, 0.0)); }
+    for k in 1..=side { v.push(p(s, k as f64)); }
+    v
+}
+fn rect_closed(w: usize, h: usize) -> Vec<Point2> {
+    let mut v = vec![];
+    for k in 0..w { v.push(p(k as f64, 0.0)); }
+    for k in 0..h { v.push(p(w as f64, k as f64)); }
+    for k in 0..w { v.push(p((w - k) as f64, h as f64)); }
+    for k in 0..h { v.push(p(0.0, (h - k) as f64)); }
+    v.push(p(0.0, 0.0));
+    v
+}
+fn diamond(r: usize) -> Vec<Point2> {
+    // vertices on |x| + |y| = r, every corner is the x- or y-extreme of both adjacent edges
+    let r = r as i64;
+    let mut v = vec![];
+    for k in 0..r { v.push(p((r - k) as f64, k as f64)); }
+    for k in 0..r { v.push(p(-k as f64, (r - k) as f64)); }
+    for k in 0..r { v.push(p((k - r) as f64, -k as f64)); }
+    for k in 0..r { v.push(p(k as f64, (k - r) as f64)); }
+    v.push(p(r as f64, 0.0));
+    v
+}
+fn octagon(off: (f64, f64)) -> Vec<Point2> {
+    let c = [(2.0, 0.0), (4.0, 0.0), (6.0, 2.0), (6.0, 4.0), (4.0, 6.0), (2.0, 6.0), (0.0, 4.0), (0.0, 2.0), (2.0, 0.0)];
+    c.iter().map(|(x, y)| p(x + off.0, y + off.1)).collect()
+}
+fn star() -> Vec<Point2> {
+    let c = [(0.0, 6.0), (1.0, 2.0), (5.0, 2.0), (2.0, -1.0), (3.0, -5.0), (0.0, -2.0), (-3.0, -5.0), (-2.0, -1.0), (-5.0, 2.0), (-1.0, 2.0), (0.0, 6.0)];
+    c.iter().map(|(x, y)| p(*x, *y)).collect()
+}
+fn spiral(turns: usize, out_in: bool) -> Vec<Point2> {
+    // rectangular spiral with integer corners: leg lengths 1,1,2,2,3,3,...
+    let mut v = vec![p(0.0, 0.0)];
+    let dirs = [(1.0, 0.0), (0.0, 1.0), (-1.0, 0.0), (0.0, -1.0)];
+    let (mut x, mut y) = (0.0, 0.0);
+    for k in 0..4 * turns {
+        let len = (k / 2 + 1) as f64;
+        x += dirs[k % 4].0 * len; y += dirs[k % 4].1 * len;
+        v.push(p(x, y));
+    }
+    if out_in { v.reverse(); }
+    v
+}
+/// open polylines whose LAST (or first) vertex is the unique extreme in some direction
+fn hook_last_extreme() -> Vec<Vec<Point2>> {
+    vec![
+        vec![p(0.0, 0.0), p(1.0, 2.0), p(2.0, 0.0), p(3.0, 2.0), p(4.0, 0.0), p(9.0, 1.0)],
+        vec![p(0.0, 0.0), p(1.0, 2.0), p(2.0, 0.0), p(3.0, 2.0), p(4.0, 0.0), p(2.0, 7.0)],
+        vec![p(0.0, 0.0), p(1.0, 2.0), p(2.0, 0.0), p(3.0, 2.0), p(4.0, 0.0), p(2.0, -7.0)],
+        vec![p(-8.0, 1.0), p(1.0, 2.0), p(2.0, 0.0), p(3.0, 2.0), p(4.0, 0.0), p(3.0, 1.0)],
+        vec![p(0.0, 0.0), p(2.0, 1.0), p(1.0, 3.0), p(-1.0, 2.0), p(-2.0, -1.0), p(0.0, -3.0), p(6.0, -6.0)],
+    ]
+}
+
+fn polylines() -> Vec<(&'static str, Vec<Point2>)> {
+    let mut v: Vec<(&'static str, Vec<Point2>)> = vec![];
+    for n in [5usize, 6, 8, 9, 13, 16, 17, 24, 33, 40] { v.push(("zigzag", zigzag(n, 2.0, 1.0))); }
+    v.push(("zigzag tall", zigzag(12, 8.0, 2.0)));
+    for n in [5usize, 11, 20] { v.push(("vertical zigzag", zigzag_vertical(n, 3.0))); }
+    for t in [2usize, 5, 10] { v.push(("comb", comb(t))); }
+    for s in [3usize, 8, 20] { v.push(("staircase", staircase(s))); }
+    for s in [2usize, 5, 13] { v.push(("U shape", u_shape(s))); }
+    v.push(("closed rectangle", rect_closed(2, 1)));
+    v.push(("closed rectangle", rect_closed(5, 3)));
+    v.push(("closed rectangle", rect_closed(12, 8)));
+    for r in [2usize, 4, 10] { v.push(("closed diamond", diamond(r))); }
+    v.push(("closed octagon", octagon((0.0, 0.0))));
+    v.push(("closed octagon offset", octagon((-11.0, 5.0))));
+    v.push(("closed star", star()));
+    for t in [2usize, 4, 9] { v.push(("spiral", spiral(t, false))); v.push(("spiral inward", spiral(t, true))); }
+    for h in hook_last_extreme() { v.push(("open, end vertex extreme", h)); }
+    v
+}
+
+// ---------------------------------------------------------------- lines
+fn rays_for(v: &[Point2]) -> Vec<Ray2> {
+    let (mut x0, mut x1, mut y0, mut y1) = (f64::MAX, f64::MIN, f64::MAX, f64::MIN);
+    for q in v { x0 = x0.min(q.x); x1 = x1.max(q.x); y0 = y0.min(q.y); y1 = y1.max(q.y); }
+    let (cx, cy) = (((x0 + x1) * 0.5).floor() + 0.25, ((y0 + y1) * 0.5).floor() + 0.25);
+    let mut xs: Vec<f64> = v.iter().map(|q| q.x).collect();
+    let mut ys: Vec<f64> = v.iter().map(|q| q.y).collect();
+    for (c, lo, hi) in [(&mut xs, x0, x1), (&mut ys, y0, y1)] {
+        c.push(lo); c.push(hi); c.push(lo - 1.0); c.push(hi + 1.0); c.push(lo + 0.5); c.push(hi - 0.25); c.push((lo + hi) * 0.5 + 0.125);
+        c.sort_by(|a, b| a.partial_cmp(b).unwrap());
+        c.dedup();
+    }
+    let mut rays = vec![];
+    // axis-parallel: horizontal lines y = c, origins left of / inside / right of the curve, both senses, two speeds
+    for &c in ys.iter() {
+        for ox in [x0 - 3.0, cx, x1 + 2.0, x0, x1] { for dx in [1.0, -1.0, 0.5, -4.0] { rays.push(Ray2::new(p(ox, c), Vector2::new(dx, 0.0))); } }
+    }
+    for &c in xs.iter() {
+        for oy in [y0 - 3.0, cy, y1 + 2.0, y0, y1] { for dy in [1.0, -1.0, 0.5, -4.0] { rays.push(Ray2::new(p(c, oy), Vector2::new(0.0, dy))); } }
+    }
+    // oblique, dyadic slopes: through vertices (every third one plus both ends) and through quarter-offset points
+    let dirs = [(1.0, 1.0), (1.0, -1.0), (2.0, 1.0), (1.0, -0.5), (-1.0, 2.0), (0.25, 1.0), (-4.0, -1.0), (3.0, 0.125)];
+    let mut anchors: Vec<Point2> = v.iter().step_by(3).cloned().collect();
+    anchors.push(*v.last().unwrap());
+    anchors.push(p(cx, cy)); anchors.push(p(x0 - 1.5, cy)); anchors.push(p(cx, y1 + 1.5)); anchors.push(p(x1 + 2.25, y0 - 0.75));
+    for a in anchors.iter() {
+        for (dx, dy) in dirs {
+            // origin on the anchor, and shifted far before / behind it along the line
+            for s in [0.0, -16.0, 16.0] { rays.push(Ray2::new(p(a.x + s * dx, a.y + s * dy), Vector2::new(dx, dy))); }
+        }
+    }
+    rays
+}
+
+// ---------------------------------------------------------------- the clauses
+fn check_line(r: &mut Report, name: &str, v: &[Point2], line: &Polyline, curve: Option<&Curve2>, ray: &Ray2) {
+    let hits = brute(v, &ray.origin, &ray.dir);
+    let expected = match distinct(&hits) { Some(e) => e, None => return };
+    r.case();
+    let desc = || format!("{} {:?} x ray origin ({:?}, {:?}) dir ({:?}, {:?}); exhaustive per-edge hits {:?}", name, v.iter().map(|q| (q.x, q.y)).collect::<Vec<_>>(), ray.origin.x, ray.origin.y, ray.dir.x, ray.dir.y, hits);
+    let n = v.len();
+
+    // the real per-edge function agrees with the oracle formula
+    for i in 0..n - 1 {
+        let a = ray_intersect_with_edge(line, ray, i);
+        let b = edge_hit(&ray.origin, &ray.dir, &v[i], &v[i + 1]);
+        r.check(match (a, b) { (Some(x), Some(y)) => close(x, y), (None, None) => true, _ => false }, "ray_intersect_with_edge == parametric intersection restricted to edge parameter [0,1]", || format!("{} edge {}: got {:?}, expected {:?}", desc(), i, a, b));
+    }
+
+    let sources: Vec<(&str, Vec<(f64, usize)>)> = {
+        let mut s = vec![("polyline_intersections", polyline_intersections(line, ray))];
+        if let Some(c) = curve { s.push(("Curve2::ray_intersections", c.ray_intersections(ray))); }
+        s
+    };
+    for (src, got) in sources.iter() {
+        let d2 = || format!("{}: {} returned {:?}", desc(), src, got);
+        // every reported parameter gives a point on the named edge
+        let mut sound = true;
+        for (t, i) in got.iter() {
+            if *i + 1 >= n || !t.is_finite() { sound = false; continue; }
+            if !on_edge(&at(&ray.origin, &ray.dir, *t), &v[*i], &v[*i + 1]) { sound = false; }
+            if !hits.iter().any(|(bt, bi)| bi == i && close(*bt, *t)) { sound = false; }
+        }
+        r.check(sound, "every reported parameter gives a point on the named edge", d2);
+        // none is missed
+        let complete = hits.iter().all(|(bt, _)| got.iter().any(|(t, _)| (t - bt).abs() <= DEDUP));
+        r.check(complete, "no per-edge intersection is missed", d2);
+        r.check(got.len() == expected.len() && got.iter().zip(expected.iter()).all(|((t, _), e)| (t - e).abs() <= DEDUP), "reported parameters equal the distinct per-edge parameters", d2);
+        // ascending without duplicates
+        r.check(got.windows(2).all(|w| w[1].0 - w[0].0 >= DEDUP), "list ascending without duplicates (1e-8)", d2);
+    }
+
+    // spanning ray: exactly when there are two crossings
+    let mut spans = vec![("spanning_ray", spanning_ray(line, ray))];
+    if let Some(c) = curve { spans.push(("Curve2::try_create_spanning_ray", c.try_create_spanning_ray(ray))); }
+    for (src, sr) in spans.iter() {
+        let d3 = || format!("{}: {} returned {:?}", desc(), src, sr.as_ref().map(|s| (s.ray().origin.x, s.ray().origin.y, s.ray().dir.x, s.ray().dir.y)));
+        r.check(sr.is_some() == (expected.len() == 2), "spanning ray produced exactly when there are two crossings", d3);
+        if let (Some(s), 2) = (sr, expected.len()) {
+            let sray = s.ray();
+            let (a, b) = (at(&ray.origin, &ray.dir, expected[0]), at(&ray.origin, &ray.dir, expected[1]));
+            let end = p(sray.origin.x + sray.dir.x, sray.origin.y + sray.dir.y);
+            r.check(close(sray.origin.x, a.x) && close(sray.origin.y, a.y) && (0..n - 1).any(|i| on_edge(&sray.origin, &v[i], &v[i + 1])), "spanning ray starts on the curve at the first crossing", d3);
+            r.check(close(end.x, b.x) && close(end.y, b.y) && (0..n - 1).any(|i| on_edge(&end, &v[i], &v[i + 1])), "spanning ray ends on the curve at the second crossing", d3);
+            let cross = sray.dir.x * ray.dir.y - sray.dir.y * ray.dir.x;
+            let dot = sray.dir.x * ray.dir.x + sray.dir.y * ray.dir.y;
+            let scale = (sray.dir.x.abs() + sray.dir.y.abs()) * (ray.dir.x.abs() + ray.dir.y.abs());
+            r.check(cross.abs() <= 1e-9 * scale && dot > 0.0, "spanning ray keeps the direction of the query line", d3);
+            // no other crossing strictly between its ends (exhaustive over the edges, on the spanning ray itself)
+            let inner = brute(v, &sray.origin, &sray.dir);
+            r.check(inner.iter().all(|(t, _)| *t <= 1e-7 || *t >= 1.0 - 1e-7), "no crossing strictly between the ends of the spanning ray", || format!("{} crossings of the spanning ray {:?}", d3(), inner));
+        }
+    }
+
+    // largest intersection
+    let mi = max_intersection(line, ray);
+    r.check(match (mi, expected.last()) { (Some(a), Some(b)) => (a - b).abs() <= DEDUP, (None, None) => true, _ => false }, "max_intersection == largest per-edge parameter", || format!("{}: got {:?}", desc(), mi));
+
+    // farthest projected vertex
+    let nrm = (ray.dir.x * ray.dir.x + ray.dir.y * ray.dir.y).sqrt();
+    let mut far = f64::NEG_INFINITY;
+    for q in v { far = far.max(((q.x - ray.origin.x) * ray.dir.x + (q.y - ray.origin.y) * ray.dir.y) / nrm); }
+    let got = farthest_point_direction_distance(line, ray);
+    r.check(close(got, far), "farthest_point_direction_distance == max over ALL vertices of the projection on the unit direction", || format!("{}: got {:?}, expected {:?}", desc(), got, far));
+}
+
+/// the intersection of a surface point's normal line with a curve: the parameters (distances along the unit normal,
+/// negative ones kept) of the exhaustive computation
+fn check_surface_point(r: &mut Report, name: &str, curve: &Curve2, sp: &SurfacePoint2) {
+    let v = curve.points();
+    let d = sp.normal.into_inner();
+    let hits = brute(v, &sp.point, &d);
+    let expected = match distinct(&hits) { Some(e) => e, None => return };
+    // stay clear of lines that graze a vertex with an inexact (normalised) direction
+    let grazing = hits.iter().any(|(t, i)| { let q = at(&sp.point, &d, *t); let (a, b) = (&v[*i], &v[*i + 1]);
+        let da = ((q.x - a.x).powi(2) + (q.y - a.y).powi(2)).sqrt(); let db = ((q.x - b.x).powi(2) + (q.y - b.y).powi(2)).sqrt();
+        (da < 1e-6 || db < 1e-6) && d.x != 0.0 && d.y != 0.0 });
+    if grazing { return; }
+    r.case();
+    let got: Vec<f64> = curve.intersection(sp);
+    r.check(got.len() == expected.len() && got.iter().zip(expected.iter()).all(|(a, b)| (a - b).abs() <= DEDUP),
+        "surface-point normal-line intersection == exhaustive per-edge parameters (negative ones kept)",
+        || format!("{} {:?} x surface point ({:?}, {:?}) normal ({:?}, {:?}): got {:?}, expected {:?}", name, v.iter().map(|q| (q.x, q.y)).collect::<Vec<_>>(), sp.point.x, sp.point.y, d.x, d.y, got, expected));
+}
+
+pub fn run() -> Option<Report> {
+    let mut r = Report::new("43 polylines with 5..=40 edges on integer grids (zig-zags, combs, staircases, U shapes, closed rectangles / diamonds / octagons / star, rectangular spirals, open chains whose end vertex is the unique extreme) x per polyline: axis-parallel lines through every vertex coordinate, the box bounds, one unit outside and fractional offsets (5 origins before / inside / behind / on the box, 4 signed speeds) and oblique lines of 8 dyadic slopes through every third vertex, the last vertex and 4 off-grid anchors (origin on the anchor and 16 steps before / behind); surface points = the same lines with a unit normal; lines whose distinct crossings are closer than 1e-6 are excluded");
+    for (name, pts) in polylines() {
+        let line = Polyline::new(pts.clone(), None);
+        let curve = Curve2::from_points(&pts, 1e-6, false).ok();
+        // the curve has the same vertex list (no duplicates to remove, never force-closed)
+        let curve = curve.filter(|c| c.points().len() == pts.len());
+        r.check(curve.is_some(), "Curve2::from_points keeps the vertex list of a duplicate-free polyline", || format!("{} {:?}", name, pts.iter().map(|q| (q.x, q.y)).collect::<Vec<_>>()));
+        let rays = rays_for(&pts);
+        for ray in rays.iter() {
+            check_line(&mut r, name, &pts, &line, curve.as_ref(), ray);
+        }
+        if let Some(c) = curve.as_ref() {
+            for ray in rays.iter() {
+                let sp = SurfacePoint2::new_normalize(ray.origin, ray.dir);
+                check_surface_point(&mut r, name, c, &sp);
+            }
+        }
+    }
+    Some(r)
+}
